@@ -66,7 +66,7 @@ func genHistoryCase(prop, tier string, r *rand.Rand) *Case {
 			n = 20 + r.IntN(40)
 		}
 	}
-	edits := []string{"node.add", "node.add", "node.delete", "node.delete", "node.setnodes", "doc.addnode", "doc.addindividual",
+	edits := []string{"node.add", "node.add", "node.delete", "node.delete", "node.setnodes", "fam.setnodes", "ind.setnodes", "doc.addnode", "doc.addindividual",
 		"doc.addfamily", "doc.addfamilyhw", "doc.delete", "doc.setnodes", "fam.sethusband", "fam.setwife", "fam.sethusband.nil",
 		"fam.setwife.nil", "fam.sethusbandptr", "fam.setwifeptr", "fam.addchild", "ind.addname", "ind.addbirth", "ind.adddeath", "ind.setsex"}
 	reads := []string{"read.nodeswithtag", "read.families", "read.individual", "read.family", "read.pointer", "read.all"}
@@ -363,19 +363,20 @@ func applyEdit(ss *session, op HistOp) (applied bool) {
 		if p == nil {
 			return false
 		}
-		old := p.Nodes()
-		var nw gedcom.Nodes
-		switch op.B % 3 {
-		case 0:
-			nw = nil
-		case 1:
-			nw = append(nw, old[:len(old)/2]...)
-		default:
-			for i := len(old) - 1; i >= 0; i-- {
-				nw = append(nw, old[i])
+		p.SetNodes(replacementNodes(p.Nodes(), op.B))
+	case "fam.setnodes", "ind.setnodes":
+		var p gedcom.Node
+		if op.Op == "fam.setnodes" {
+			if f := nthFamily(doc, op.A); f != nil {
+				p = f
 			}
+		} else if i := nthIndividual(doc, op.A); i != nil {
+			p = i
 		}
-		p.SetNodes(nw)
+		if p == nil {
+			return false
+		}
+		p.SetNodes(replacementNodes(p.Nodes(), op.B))
 	case "doc.addnode":
 		ss.counter++
 		doc.AddNode(gedcom.NewNode(gedcom.TagFromString(pick2s(op.A, "NOTE", "SOUR", "SUBM")), op.Str2, fmt.Sprintf("R%d", ss.counter)))
@@ -501,6 +502,37 @@ func applyEdit(ss *session, op HistOp) (applied bool) {
 }
 
 func pick2s(k int, xs ...string) string { return xs[k%len(xs)] }
+
+// replacementNodes derives the new child list of a SetNodes edit from the old
+// one: nothing, the first half, reversed, everything but the relation nodes
+// (never empty), or a single new node.
+func replacementNodes(old gedcom.Nodes, k int) gedcom.Nodes {
+	var nw gedcom.Nodes
+	switch k % 5 {
+	case 0:
+		return nil
+	case 1:
+		nw = append(nw, old[:len(old)/2]...)
+	case 2:
+		for i := len(old) - 1; i >= 0; i-- {
+			nw = append(nw, old[i])
+		}
+	case 3:
+		for _, n := range old {
+			switch n.Tag().Tag() {
+			case "HUSB", "WIFE", "CHIL", "_UID", "_FID", "_FSFTID", "FAMS", "FAMC":
+				continue
+			}
+			nw = append(nw, n)
+		}
+		if len(nw) == 0 {
+			nw = gedcom.Nodes{gedcom.NewNode(gedcom.TagNote, "only this is left", "")}
+		}
+	default:
+		nw = gedcom.Nodes{gedcom.NewNode(gedcom.TagNote, "replaced", "")}
+	}
+	return nw
+}
 
 // applyReadOnly performs one read-only operation; concurrent ones run inside
 // the simulator with a schedule derived from the operation's seed.
